@@ -361,10 +361,10 @@ func eachC15(shard, shards int, ev *evid.Rec, emit func(caseC15) bool) {
 		// patterns of this year
 		ys := fmt.Sprintf("%04d", y)
 		pats := []string{ys}
-		for m := 0; m <= 13; m++ {
+		for m := 0; m <= 99; m++ {
 			pats = append(pats, fmt.Sprintf("%s-%02d", ys, m))
 		}
-		pats = append(pats, ys+"-99", ys+"-1")
+		pats = append(pats, ys+"-1")
 		for q := 0; q <= 9; q++ {
 			pats = append(pats, fmt.Sprintf("%s-Q%d", ys, q))
 		}
